@@ -19,7 +19,7 @@ var stratSpecs = []stratSpec{
 	{name: "Macd", cfgs: [][3]int{{1, 2, 2}, {2, 3, 2}, {1, 2, 3}}},
 	{name: "Rsi", cfgs: [][3]int{{2, 0, 0}, {3, 0, 0}}, nonlin: true},
 	{name: "AwesomeOscillator", cfgs: [][3]int{{1, 2, 0}, {2, 3, 0}}},
-	{name: "StochasticRsi", cfgs: [][3]int{{2, 2, 0}}, heavy: true, nonlin: true, noDflt: true},
+	{name: "StochasticRsi", cfgs: [][3]int{{2, 2, 0}, {3, 2, 0}}, heavy: true, nonlin: true, noDflt: true},
 	{name: "TripleRsi", cfgs: [][3]int{{2, 3, 2}, {2, 4, 3}}, nonlin: true, noDflt: true},
 	{name: "BollingerBands", cfgs: [][3]int{{2, 0, 0}, {3, 0, 0}}, nonlin: true},
 	{name: "SuperTrend", cfgs: [][3]int{{1, 0, 0}, {4, 0, 0}}, nonlin: true, noDflt: true},
@@ -44,7 +44,7 @@ var stratSpecs = []stratSpec{
 	{name: "Qstick", cfgs: [][3]int{{2, 0, 0}, {3, 0, 0}}},
 	{name: "Smma", cfgs: [][3]int{{1, 2, 0}, {2, 3, 0}}},
 	{name: "Trima", cfgs: [][3]int{{1, 2, 0}, {2, 3, 0}}},
-	{name: "TripleMovingAverageCrossover", cfgs: [][3]int{{1, 2, 3}, {2, 3, 3}}, noDflt: true},
+	{name: "TripleMovingAverageCrossover", cfgs: [][3]int{{1, 2, 3}, {2, 3, 3}, {3, 2, 4}}, noDflt: true},
 	{name: "Trix", cfgs: [][3]int{{1, 0, 0}, {2, 0, 0}}, nonlin: true},
 	{name: "Tsi", cfgs: [][3]int{{1, 2, 3}, {2, 3, 2}}, nonlin: true},
 	{name: "Vwma", cfgs: [][3]int{{2, 0, 0}, {3, 0, 0}}, vol: true},
@@ -128,8 +128,10 @@ func init() {
 
 	grids["C06"] = &gridDef{
 		explain: "for each base strategy the action at every position i >= w_s must equal the documented decision rule applied to the values the real documented indicator takes on the documented snapshot fields (rule restated in the harness table; open, high, low, close, volume are independent symbolic values within validity); positions where the compared quantities are equal are exempt; MACD-RSI's combiner is checked over its real sub-strategies",
-		bounds:  func(t string) string { return stratBounds + " (small configurations only); n = w_s + 1..3 (thorough: ..5)" },
-		outside: "default (large) period configurations, longer inputs, non-default thresholds",
+		bounds: func(t string) string {
+			return stratBounds + " (small configurations only); n = w_s + 1..3 (thorough: ..5)"
+		},
+		outside:     "default (large) period configurations, longer inputs, non-default thresholds",
 		assumptions: append([]string{realModeNote, "valid OHLCV snapshots", "oracle: Rule functions in harness/h/strat_*.go (DESIGN.md Appendix B); the indicator used by the oracle is the real one (its correctness is C01)"}, commonAssumptions...),
 		cases: func(tier string, pr *prober) []sym.CaseSpec {
 			dn := 3
@@ -158,9 +160,9 @@ func init() {
 	}
 
 	grids["C14"] = &gridDef{
-		explain: "the real Report pipeline of each strategy runs on n symbolic snapshots with distinct dates; the date stream and the stream behind every column are drained concurrently; every column must supply exactly one value per date row and be closed afterwards, rows must be consecutive dates ending at the last snapshot, and the Close / annotation / Outcome (and stated indicator) columns must carry the values for their row's date",
-		bounds:  func(t string) string { return stratBounds + " (small configurations); n = w_s + 1..2 (thorough: ..4)" },
-		outside: "HTML rendering (text/template), default period configurations, the compound/decorator reports (same three generic columns; covered for And/Or/Majority/Split via C03)",
+		explain:     "the real Report pipeline of each strategy runs on n symbolic snapshots with distinct dates; the date stream and the stream behind every column are drained concurrently; every column must supply exactly one value per date row and be closed afterwards, rows must be consecutive dates ending at the last snapshot, and the Close / annotation / Outcome (and stated indicator) columns must carry the values for their row's date",
+		bounds:      func(t string) string { return stratBounds + " (small configurations); n = w_s + 1..2 (thorough: ..4)" },
+		outside:     "HTML rendering (text/template), default period configurations, the compound/decorator reports (same three generic columns; covered for And/Or/Majority/Split via C03)",
 		assumptions: append([]string{realModeNote, "column streams are read through the unexported `values` field (executor: direct; native replay: reflect+unsafe)", "annotation strings are SMT strings"}, commonAssumptions...),
 		cases: func(tier string, pr *prober) []sym.CaseSpec {
 			dn := 2
